@@ -72,8 +72,9 @@ def run(ctx):
         prim(R3, cfg, F, 'entry::AtomicReloadId::swap', 'swap', [['arg1', '*', '0', '&'], ['arg2', '0']], {'AcqRel', 'SeqCst'}, wraps=True)
         prim(R3, cfg, F, 'entry::AtomicReloadId::fetch_max', 'fetch_max', [['arg1', '*', '0', '&'], ['arg2', '0']], {'AcqRel', 'SeqCst'}, wraps=True)
         if 'hot-reloading' in ctx.cfg_features[cfg]:
-            prim(R3, cfg, F, 'entry::AtomicReloadId::increment', 'fetch_add', [['arg1', '*', '0', '&'], ['const:1_usize']],
-                 {'Release', 'AcqRel', 'SeqCst'})
+            if F.body('entry::AtomicReloadId::increment') or not prim_folded(R3, cfg, F, {'Release', 'AcqRel', 'SeqCst'}):
+                prim(R3, cfg, F, 'entry::AtomicReloadId::increment', 'fetch_add', [['arg1', '*', '0', '&'], ['const:1_usize']],
+                     {'Release', 'AcqRel', 'SeqCst'})
         never = F.consts.get('entry::ReloadId::NEVER')
         if not never:
             R3.missing(cfg, 'entry::ReloadId::NEVER')
@@ -422,6 +423,27 @@ def table_atomic_update(R, cfg, b):
         R.check(ret == (rel == '>'), cfg, b.path, 'row new%sprev' % rel,
                 'for new%sprev: returned %s, want %s' % (rel, ret, rel == '>'), c.loc(),
                 row={'rel': rel, 'cmp': c.callee.name, 'swapped': swapped, 'returned': ret})
+
+
+def prim_folded(R, cfg, F, orderings):
+    """`increment` written into its only caller, the writer: the bump is `….reload.0.fetch_add(1, ordering)` there.
+    False when there is no such call (the caller then reports the missing anchor)."""
+    ws = F.callers_of(r'^entry::swap_any$')
+    b = F.body(ws[0]) if len(ws) == 1 else None
+    if not b:
+        return False
+    cs = [c for c in b.calls() if c.callee and c.callee.name == 'fetch_add' and 'atomic::Atomic' in c.callee.best and 'usize' in c.callee.best
+          and (b.access_path(c.args[0]) or [])[-3:] == ['reload', '0', '&']]
+    if len(cs) != 1:
+        return False
+    c = cs[0]
+    got = b.access_path(c.args[1])
+    ordv = enum_variant_of(b, c.args[2]) if len(c.args) > 2 else set()
+    ok = got == ['const:1_usize'] and len(ordv) == 1 and ordv <= orderings
+    R.check(ok, cfg, 'entry::AtomicReloadId::increment', "fetch_add([['arg1', '*', '0', '&'], ['const:1_usize']];%s)" % '/'.join(sorted(orderings)),
+            'the bump of the reload id in %s: operand %s ordering %s (want 1, ordering in %s)' % (b.path, got, sorted(ordv), sorted(orderings)),
+            c.loc(), callee=c.callee.best, ordering=sorted(ordv))
+    return True
 
 
 def prim(R, cfg, F, path, atomic_name, want_args, orderings, wraps=False):
